@@ -1,5 +1,5 @@
 (* C20 — the executable separates data from diagnostics and signals failure by exit code. *)
-From Jawk Require Import Base Json Reader Printer Ctx Expr Chain ExprParser Go TableProofs.
+From Jawk Require Import Base Json Reader Printer Ctx Expr Chain ExprParser Go MainWiringOk.
 Local Open Scope Z_scope.
 
 (* status 0 exactly when the run succeeded *)
